@@ -122,6 +122,9 @@ class HTTPProtocol(BaseGopherProtocol):
         return self.getrenderstr(entry, url)
 
     def getrenderstr(self, entry, url):
+        # URLs of URL: selectors and of remote entries come from gophermaps
+        # and link files: never put them into an attribute unescaped.
+        url = html.escape(url)
         retstr = "<TR><TD>"
         retstr += self.getimgtag(entry)
         retstr += "</TD>\n<TD>&nbsp;"
